@@ -25,6 +25,11 @@ CLAIMED = {
    text='Proof. For Line/Quadratic/Cubic the traced translated/rotated (explicit and default origin, w = exp(i*rad))/scaled (uniform, default origin; non-uniform coordinate-wise)/transform (every 2x3 affine matrix, invertible or not) are proved to commute with point evaluation as polynomial identities over any field of characteristic 0; for arcs the defining data handed to Arc() is proved to be the image of the old data with flags unchanged. transform_segments_together: for any per-segment transformation, every joint that coincided exactly (cyclically, incl. the closing joint) coincides exactly afterwards (law-free theorem on the model; model run against the real function every run). Sampler: all kinds incl. arcs, negative/small scales, reflection/shear/product/near-identity matrices, closed paths; non-uniform scaled() of an arc must raise.',
    note='Trusted: kernel + standard axioms; translator (numpy.exp/radians replaced by an opaque unit w); correspondence runner. Known finding F8 (transform() on arcs raises TypeError for every matrix) is reported as KNOWN-FINDING, not claimed. That an Arc is determined by its defining data is C04.',
    ref='7 C10'),
+ 'C16': dict(
+   technique='Lean 4 proof: refinement of the mutable Path (state machine with caches) to the cache-free specification by a representation invariant and induction over the operation history; accuracy-contract theorem for the cubic length cache; models tied by operation-sequence correspondence',
+   text='Proof (law-free, so valid verbatim for floats). Model: segment list + _length/_lengths/_length_params/_start/_end caches; mutators __setitem__ (index, slice), __delitem__, insert, and append/extend/pop/reverse derived as collections.abc derives them, start/end setters; queries length (any accuracy), T2t, point, start, end. Theorem history_refines_fresh: from a freshly constructed path, after ANY history of admissible mutations interleaved with queries, every query returns exactly what a newly constructed Path of the current segments returns (invariant + induction over the op list). cubic_cache_accuracy: for any monotone accuracy contract every value returned by CubicBezier.length meets the request for the current control points. Pre-repair setters and hit rule are refuted by kernel-checked witnesses. The models are executed against the real classes on every run (random histories to depth 60 with negative/out-of-range indices and raising ops, exhaustive depth 2/3 over a 17-op alphabet, identity-integrator cache runs); a float sampler compares every public query incl. bbox/d/== with a fresh Path after each operation, with scipy on and off.',
+   note='Trusted: kernel + standard axioms; correspondence runner. Not modelled: aliasing of one segment object in two places; operations that raise are compared (partial effect) but outside the theorem. Known finding F12 (Path __eq__/__hash__ disagree on _closed) is reported as KNOWN-FINDING.',
+   ref='7 C16'),
  'C19': dict(
    technique='Lean 4 proof: per-degree ring identities on definitions regenerated from bezier.py by a tracing translator; list-induction theorems on a hand model of the polyroots filter tied by exact (rational) correspondence',
    text='Proof. For degrees 0..8 the traced bezier_point / bezier2polynomial / polynomial2bezier / split_bezier / halve_bezier are proved equal to the Bernstein form over every field of characteristic 0 (369 theorems, regenerated definitions, `ring`). The root filter after np.roots is proved to keep every isolated candidate exactly once and to return a pairwise non-close sublist, for all lists and all closeness relations; the model is executed against the real polyroots01/rational_limit on exact rationals every run. A float sampler on the real code backs the clauses proof cannot reach (rounding, np.roots).',
